@@ -209,7 +209,7 @@ type c05Operand struct {
 // C05: arithmetic on JSON numbers is exact decimal arithmetic.
 func TestC05_Arith(t *testing.T) {
 	c := collector("C05", "arith")
-	rapid.Check(t, func(t *rapid.T) {
+	check(t, func(t *rapid.T) {
 		emax := 30
 		if rapid.IntRange(0, 5).Draw(t, "wide") == 0 {
 			emax = 3000
@@ -219,6 +219,7 @@ func TestC05_Arith(t *testing.T) {
 		}
 		var keys []string
 		var nodes []run.Node
+		var prev *big.Rat
 		operand := func(i int) c05Operand {
 			var txt string
 			if rapid.IntRange(0, 5).Draw(t, "detour") == 0 {
@@ -226,10 +227,34 @@ func TestC05_Arith(t *testing.T) {
 			} else {
 				txt = decText(t, emax)
 			}
+			if prev != nil && prev.Sign() != 0 && rapid.IntRange(0, 5).Draw(t, "related") == 0 {
+				// an operand that almost cancels (or almost equals) the previous
+				// one: its negation or itself, moved by one unit of its last
+				// digit, of its 34th digit, by 1 or by a half
+				d, _ := jv.SigDigits(prev)
+				e := log10Floor(prev)
+				deltas := []*big.Rat{new(big.Rat), pow10(e - d + 1), pow10(e - 33), big.NewRat(1, 1), big.NewRat(1, 2), pow10(e - 34)}
+				delta := gen.Pick(t, "delta", deltas)
+				r := new(big.Rat).Set(prev)
+				if rapid.Bool().Draw(t, "negate") {
+					r.Neg(r)
+				}
+				if rapid.Bool().Draw(t, "deltasign") {
+					r.Add(r, delta)
+				} else {
+					r.Sub(r, delta)
+				}
+				if exactlyRepresentable(r) && r.Sign() != 0 {
+					if rt := jv.RatText(r); len(rt) < 200 && jv.IsJSONNumber(rt) {
+						txt = rt
+					}
+				}
+			}
 			r, ok := jv.ParseNum(txt)
 			if !ok {
 				t.Fatalf("harness: bad number text %q", txt)
 			}
+			prev = r
 			o := c05Operand{text: txt, r: r}
 			switch rapid.IntRange(0, 3).Draw(t, "supply") {
 			case 0:
